@@ -99,5 +99,11 @@ void use(int i, int kind) {
     case 7: t = ({ v }); t[0..0] = ({ v, v }); t = t[1..]; t += ({ v }); t = t[<1..]; break;
     case 8: t = evaluate((: ident :), v); t = evaluate((: $1 :), ({ v })...); t = call_other(this_object(), "ident", v); break;
     case 9: t = ({ ({ v }) }); nopv(t[0]...); x = t[0]; nopv(x...); nopv(v, x..., v); break;
+    case 10:       // a switch over string labels with an operand computed at run time that is no label (and nobody's string)
+      t = "sw" + sizeof(({ v })) + "q" + i + "z";
+      switch (t) { case "alpha": x = 1; break; case "beta": x = 2; break; default: x = 3; }
+      switch ("al" + "pha" + (i ? "" : "")) { case "alpha": x = 1; break; case "beta": x = 2; break; default: x = 3; }
+      switch (i) { case 0: x = 1; break; case 1..5: x = 2; break; default: x = 3; }
+      break;
   }
 }
